@@ -164,6 +164,10 @@ func DecodeLength(b io.ByteReader) (n, bu int, err error) {
 			break
 		}
 
+		if bu == 4 {
+			return 0, bu, ErrMalformedVariableByteInteger // a variable byte integer is at most four bytes
+		}
+
 		multiplier += 7
 		bu++
 	}
